@@ -1414,25 +1414,35 @@ fn read_command_div(cur: &mut SourceCursor, song: &mut Song, need2back: bool) ->
     let block = cur.get_token_nest('{', '}');
     let len_s = cur.get_note_length();
     let tokens = lex(song, &block, cur.line);
-    // count note
+    // count note (an element inside a loop counts once per repetition of the loop)
     let mut cnt = 0;
+    let mut mult: isize = 1; // how often the current position is played
+    let mut loops: Vec<(isize, isize)> = vec![]; // (multiplier outside the loop, loop count)
     for t in tokens.iter() {
         match t.ttype {
+            TokenType::LoopBegin => {
+                let n = match &t.data[0] { SValue::Int(n) => if *n < 0 { 0 } else { *n }, _ => 1 };
+                loops.push((mult, n));
+                mult *= n;
+            }
+            TokenType::LoopBreak => {
+                // the part after ':' is skipped on the last pass
+                if let Some((outer, n)) = loops.last() { mult = outer * if *n > 0 { *n - 1 } else { 0 }; }
+            }
+            TokenType::LoopEnd => {
+                if let Some((outer, _)) = loops.pop() { mult = outer; }
+            }
             TokenType::Note => {
-                cnt += 1;
-                cnt += scan_chars(&t.data[2].to_s(), '^');
+                cnt += mult * (1 + scan_chars(&t.data[2].to_s(), '^'));
             }
             TokenType::NoteN => {
-                cnt += 1;
-                cnt += scan_chars(&t.data[1].to_s(), '^');
+                cnt += mult * (1 + scan_chars(&t.data[1].to_s(), '^'));
             }
             TokenType::Div => {
-                cnt += 1;
-                cnt += scan_chars(&t.data[0].to_s(), '^');
+                cnt += mult * (1 + scan_chars(&t.data[0].to_s(), '^'));
             }
             TokenType::Rest => {
-                cnt += 1;
-                cnt += scan_chars(&t.data[0].to_s(), '^');
+                cnt += mult * (1 + scan_chars(&t.data[0].to_s(), '^'));
             }
             _ => {}
         }
